@@ -11,6 +11,11 @@ Failed(r) ==
     IN Clause("crc16_ok",    r.c16   = Crc16(r.data))
        \cup Clause("crc32c_le_ok", r.c32le = le)
        \cup Clause("crc32c_be_ok", r.c32be = be)
+       \cup (IF Has(r, "forms")
+             THEN Clause("same_result_whatever_bytes_like_object_holds_the_data", \A j \in 1..Len(r.forms) :
+                             LET f == r.forms[j] IN
+                             ~Has(f, "err") /\ f.c16 = Crc16(r.data) /\ f.le = le /\ f.be = be /\ f.bek = be /\ f.lek = le)
+             ELSE {})
        \cup (IF Has(r, "be2") THEN Clause("crc32c_be_ok_whatever_string_object_names_the_order", r.be2 = be /\ r.le2 = le) ELSE {})
 
 TInit == KitInit
